@@ -383,7 +383,7 @@ func runWalk(c *Ctx) {
 			}
 		}
 		var set *ssa.Call
-		for _, ci := range core.Calls(exec, "(reflect.Value).Set") {
+		for _, ci := range p.RegionCalls(exec, "(reflect.Value).Set") {
 			set, _ = ci.(*ssa.Call)
 		}
 		if set == nil || argMap == nil {
@@ -402,7 +402,7 @@ func runWalk(c *Ctx) {
 			}
 			keyOK := false
 			if e, ok := set.Common().Args[1].(*ssa.Extract); ok {
-				if lk, ok := e.Tuple.(*ssa.Lookup); ok && lk.X == ssa.Value(argMap) {
+				if lk, ok := e.Tuple.(*ssa.Lookup); ok && (lk.X == ssa.Value(argMap) || p.Bind(lk.X) == ssa.Value(argMap)) {
 					if id, ok := lk.Index.(*ssa.Call); ok && core.CalleeName(id.Common()) == core.GVertexID {
 						if vc, ok := id.Common().Args[0].(*ssa.Call); ok && vc.Common().StaticCallee() != nil && vc.Common().StaticCallee().Name() == "vertex" {
 							valB = vc.Common().Args[0]
@@ -416,7 +416,7 @@ func runWalk(c *Ctx) {
 			present := false
 			for _, l := range core.Lits(core.Guards(set.Block())) {
 				if l.Kind == "ok" && l.Pol {
-					if lk, ok := l.Of.(*ssa.Lookup); ok && lk.X == ssa.Value(argMap) {
+					if lk, ok := l.Of.(*ssa.Lookup); ok && (lk.X == ssa.Value(argMap) || p.Bind(lk.X) == ssa.Value(argMap)) {
 						present = true
 					}
 				}
